@@ -412,3 +412,15 @@ Proof.
   destruct (str_eqb (cc_signer cc) (c_fp ca)) eqn:E; [|reflexivity].
   apply str_eqb_eq in E. contradiction.
 Qed.
+
+(* ---- no verification history ------------------------------------------------------------------------ *)
+
+Lemma history_independent P bl pre x post :
+  nth (length pre) (verify_seq P bl (pre ++ x :: post)) false = is_ok (verify_g P bl (s_time x) (s_cert x) (s_sig x)) /\
+  nth (length pre) (verify_seq P bl (pre ++ x :: post)) false = accept_spec_g P bl (s_time x) (s_cert x) (s_sig x).
+Proof.
+  assert (H : nth (length pre) (verify_seq P bl (pre ++ x :: post)) false = is_ok (verify_g P bl (s_time x) (s_cert x) (s_sig x))).
+  { unfold verify_seq. rewrite map_app. rewrite app_nth2; rewrite map_length; [|apply le_n].
+    now rewrite PeanoNat.Nat.sub_diag. }
+  split; [exact H|]. rewrite H. apply verify_g_spec.
+Qed.
